@@ -127,10 +127,11 @@ def dispatch(repo, chk):
         if selects(branches, sname) is None:
             chk.note(f'surrogate heuristic {sname!r} (used in {sorted(set(found[sname]))[:2]}) reaches no branch; the surrogate family is excluded by the statement')
     # the score is decided by the dispatch alone: single return at the end, nothing but initialisation before the chain
-    pre = [s for s in fn.node.body if s.lineno < first.lineno and not (isinstance(s, ast.Expr) and isinstance(s.value, ast.Constant))]
+    from ..match import is_noise_stmt
+    pre = [s for s in fn.node.body if s.lineno < first.lineno and not is_noise_stmt(s)]
     ok_pre = all(isinstance(s, ast.Assign) and isinstance(s.targets[0], ast.Name) and (s.targets[0].id in hnames or (s.targets[0].id == score and isinstance(s.value, ast.Constant))) for s in pre)
     ok_ret = len(rets) == 1 and fn.node.body[-1] is rets[0]
-    post = [s for s in fn.node.body if s.lineno > first.end_lineno and s is not rets[-1]] if rets else []
+    post = [s for s in fn.node.body if s.lineno > first.end_lineno and s is not rets[-1] and not is_noise_stmt(s)] if rets else []
     chk.expect(ok_pre and ok_ret and not post, 'C05.1b', 'R1', fn.site(pre[0]) if pre and not ok_pre else fn.site(rets[0]) if rets else fn.site(), 'score = dispatch(heuristic); return score',
                'nothing but the dispatch decides the emitted score', 'the score is decided outside the heuristic dispatch (early exit, pre- or post-processing of the score): for some inputs the emitted value is not the selected heuristic applied to the two columns')
     return branches
@@ -244,11 +245,13 @@ def _sym_exec(fn, comb, args, frame, c0, c1):
         raise Inconclusive(f'condition {ast.unparse(t)[:60]}')
     result = {}
 
+    from ..match import is_noise_stmt
+
     def block(body):
         for s in body:
             if 'ret' in result:
                 return
-            if isinstance(s, ast.Expr) and isinstance(s.value, ast.Constant):
+            if is_noise_stmt(s):
                 continue
             if isinstance(s, ast.Assign) and len(s.targets) == 1:
                 t = s.targets[0]
